@@ -346,6 +346,24 @@ def plans_for(e, enums, tier):
         return [[]]
     full = [s[0] for s in sd]
     kind = e["spec"].kind
+    if tier.startswith("twin-"):
+        # reduced product for the (slow) Dora twin: a single cartesian product
+        th = tier.endswith("thorough")
+        cap = 60_000 if th else 3000
+        p = [(s[1] if th else s[2]) if s[3] else s[1] for s in sd]
+        if th:
+            q = [s[1] if s[3] else s[0] for s in sd]
+            if _size(q) <= cap:
+                p = q
+        while _size(p) > cap:
+            cands = [i for i in range(len(p)) if len(p[i]) > 2 and (sd[i][3] or len(p[i]) > 6)]
+            if not cands:
+                break
+            i = max(cands, key=lambda k: len(p[k]))
+            keep = p[i]
+            # keep both ends and the middle of the list (boundary sets are sorted)
+            p[i] = sorted({keep[0], keep[len(keep) // 2], keep[-1]}) if len(keep) > 4 else keep[:2]
+        return [p]
     cap = 5_000_000 if tier == "thorough" else 60_000
     if kind == 1:
         cap = 400_000 if tier == "thorough" else 30_000
@@ -410,7 +428,8 @@ def _shrink(p, sd, cap, keep=None):
     return p
 
 
-def write_plan(path, joined, enums, tier, llvm, mattr, scratch, threads, only=None, roundtrip=True, classify_refusals=None):
+def write_plan(path, joined, enums, tier, llvm, mattr, scratch, threads, only=None, roundtrip=True, classify_refusals=None,
+               extra=""):
     declared = {}
     with open(path, "w") as f:
         if classify_refusals is None:
@@ -418,6 +437,7 @@ def write_plan(path, joined, enums, tier, llvm, mattr, scratch, threads, only=No
         f.write("llvm %s\nmattr %s\nscratch %s\nthreads %d\nchunk %d\nroundtrip %d\nclassify_refusals %d\n" % (
             llvm, mattr, scratch, threads, 32768 if tier == "quick" else 65536, 1 if roundtrip else 0,
             1 if classify_refusals else 0))
+        f.write(extra)
         for e in joined["covered"]:
             if only and e["name"] not in only:
                 continue
